@@ -142,10 +142,7 @@ theorem deepEqualChildrenLoop_iff (as : List Tree) : ∀ bs : List Tree,
     | cons b bs =>
       have ⟨va, na⟩ := ha a List.mem_cons_self
       have ⟨vb, nb⟩ := hb b List.mem_cons_self
-      have h1 : deepEqual a b = true ↔ canon a = canon b := by
-        unfold deepEqual
-        rw [advancedDeepEqual_eq]
-        exact deepIffCanon a b va vb na nb
+      have h1 : deepEqual a b = true ↔ canon a = canon b := deepEqual_iff_canon a b va vb
       have h2 := ih bs (fun x hx => ha x (List.mem_cons_of_mem _ hx)) (fun x hx => hb x (List.mem_cons_of_mem _ hx))
       simp only [deepEqualChildrenLoop, List.map_cons, List.cons.injEq]
       cases hd : deepEqual a b
